@@ -208,8 +208,27 @@ func runC10(script *Scenario, d C10Disturbance) (*c10Result, error) {
 			lastReady[st.I] = st.On
 		}
 	}
+	// (the scripted steps address workloads by position; when they all ask for the same state the workload controller they
+	// stand for reports that state on every workload there is - otherwise which object a position names would depend on
+	// what the disturbances deleted or re-created)
+	uniform, common := len(widgetOrder) > 0, 0
+	for n, i := range widgetOrder {
+		if n == 0 {
+			common = lastWidget[i]
+		} else if lastWidget[i] != common {
+			uniform = false
+		}
+	}
 	for round := 0; round < 2 && ok; round++ {
+		if uniform {
+			for _, k := range r.W.ListKeys(engine.WidgetGroup, "Widget") {
+				r.SetWidgetStatus(k, WidgetStates[mod(common, len(WidgetStates))])
+			}
+		}
 		for _, i := range widgetOrder {
+			if uniform {
+				break
+			}
 			if err := r.Exec(len(script.Steps), Step{Op: "widget", I: i, J: lastWidget[i]}); err != nil {
 				return nil, err
 			}
